@@ -29,7 +29,7 @@ type c27Config struct {
 func init() {
 	register(&Property{
 		ID:       "C27",
-		Patterns: []string{"./sql/types"},
+		Patterns: []string{"./sql/types", "./sql/rowexec", "./sql/analyzer", "./memory"},
 		Explanation: "Narrowing clause of 'storing a value keeps it exactly or reports the change'. The conversion family is every function of package sql/types whose results include " +
 			"sql.ConvertInRange. Decided: (V1) every numeric conversion in that family that cannot hold all values of its source type (narrowing, sign change, float->int, float64->float32) " +
 			"and whose result flows - through interface boxing, phis and math.Round/Floor/Ceil/Trunc - into a return that reports the constant sql.InRange is exact: the one-variable " +
@@ -51,6 +51,8 @@ func init() {
 			runC27(c, c27Config{Rel: "sql/types", SibRels: rels, IfaceRel: "sql", Iface: "Type", ConvertM: "Convert", FlagType: "ConvertInRange", InRange: "InRange",
 				BaseConsts: "github.com/dolthub/vitess/go/sqltypes", Floors: [3]int{56, 30, 16}})
 			runC27T(c, c27TDefault())
+			c.Rule("C27-U", "every call that binds the sql.ConvertInRange verdict of a conversion to a variable consults it on the success path: with a nil error and verdict Overflow/Underflow the converted (clamped or wrapped) value is not used, except handed back together with its verdict or quoted in the error/warning, or used after / together with a raised warning", 38)
+			ruleVerdictConsulted(c, "C27-U", "sql", rels, c27uExceptions)
 		},
 		Fixture: func(c *Ctx, fx *Prog) {
 			expectFixture(c, fx, "c27: wrong bound, missing lower bound, float boundary, 24-bit arm using the 32-bit range, Convert without nil clause",
@@ -65,6 +67,15 @@ func init() {
 				func(fc *Ctx) {
 					runC27(fc, c27Config{Rel: "testdata/c27/conv", SibRels: []string{"testdata/c27/conv"}, IfaceRel: "testdata/c27/conv", Iface: "Type", ConvertM: "Convert",
 						FlagType: "ConvertInRange", InRange: "InRange", BaseConsts: "vchk/testdata/c27/conv"})
+				})
+			expectFixture(c, fx, "c27u: verdict looked at only under err != nil, one-sided test, verdict never tested",
+				[]string{
+					"C27-U:vchk/testdata/c27/consume.UnreachableGuard/c<-conv",
+					"C27-U:vchk/testdata/c27/consume.OneSided/c<-conv",
+					"C27-U:vchk/testdata/c27/consume.Decoration/c<-conv",
+				},
+				func(fc *Ctx) {
+					ruleVerdictConsulted(fc, "C27-U", "testdata/c27/consume", []string{"testdata/c27/consume"}, nil)
 				})
 			expectFixture(c, fx, "c27t: wrong precision-5 divisor, short table indexed by a non-precision value, overwritten entry, wrong unit scalar / range, written unit, zero strings with a wrong digit count",
 				[]string{
@@ -88,7 +99,7 @@ func init() {
 					runC27T(fc, cfg)
 				})
 		},
-		FixturePkgs: []string{"./testdata/c27/conv", "./testdata/c27/tables"},
+		FixturePkgs: []string{"./testdata/c27/conv", "./testdata/c27/tables", "./testdata/c27/consume"},
 	})
 }
 
